@@ -78,9 +78,28 @@ def c06(tier):
                 for st_ in range(8):
                     g.append(run1(df17(5, a, pack([(tc, 5), (st_, 3), (rng.getrandbits(48), 48)]), df=dfx)))
             groups.append(g)
+    # flight status / downlink request / utility fields of the replies that do NOT carry the identity: every FS value on DF4 / DF20,
+    # DF0 / DF16 with every VS/RI pattern, on a row that holds a squawk
+    for opts in OPTSETS:
+        a = 0x4b0800 + len(groups) % 1000
+        g = [reset(opts), run1(df11(5, a)), run1(short(5, enc_squawk(4, 5, 2, 1), a))]
+        for fs in range(8):
+            for dfx in (4, 20, 0, 16):
+                data = pack([(dfx, 5), (fs, 3), (rng.getrandbits(5), 5), (rng.getrandbits(6), 6), (enc_alt13(rng.randrange(0, 40000, 25)), 13)])
+                if dfx >= 16:
+                    data += bits_of(rng.getrandbits(56), 56)
+                g.append(run1(hexs(with_ap(data, a))))
+        groups.append(g)
+    # squawks that return to earlier values, from both carriers, one line per run vs one run
+    for k in range(6 if tier == 'quick' else 80):
+        a = 0x4b0c00 + k
+        codes_ = [rng.getrandbits(13) for _ in range(4)]
+        carriers = [short(5, c, a, rng.getrandbits(14)) for c in codes_] + [long_(21, c, bits_of(rng.getrandbits(56), 56), a) for c in codes_]
+        groups.append(seg_group('C06', [df11(5, a)] + returning(rng, carriers, 14), OPTSETS[k % 4]))
     conform(rep, 'C06', groups)
     rep.rule = ('identity field values (%s) x DF5/DF21 x {update of existing row, first frame} x option sets {none,-U,-R}, '
-                'remaining bits random; plus every other format applied to a row holding a squawk. An event is '
+                'remaining bits random; plus every other format applied to a row holding a squawk (every FS value on DF4/DF20/DF0/DF16, every TC x '
+                'subtype of DF17/DF18); squawk sequences returning to earlier values, one line per run vs one run. An event is '
                 'non-trivial when the fed line is an applied DF5/DF21 frame (decided by the spec); distinct = distinct '
                 '(line, slot)' % ('all 8192' if tier == 'thorough' else 'stratified: all 1- and 2-bit patterns + random'))
     vlib.nt_floor(rep, 1000)
@@ -113,9 +132,26 @@ def c05(tier):
         groups += sweep_groups(lambda v, a, r: df17(5, a, me_airpos(tc, r.getrandbits(2), v, r.getrandbits(1),
                                                                     r.getrandbits(17), r.getrandbits(17))),
                                c12 if tier == 'thorough' else c12[::max(1, len(tcs) - 1)], OPTSETS[:3], rng)
+    # a live row: position just decoded from an even/odd pair, then altitudes from all three carriers that keep returning to earlier
+    # values (A B A C ...), each frame judged; and the same kind of sequence one line per run vs one run
+    y0, x0 = cpr_encode(47.3, 8.5, 0)
+    y1, x1 = cpr_encode(47.3005, 8.5004, 1)
+    for k in range(8 if tier == 'quick' else 120):
+        a = 0x3c9000 + k
+        opts = OPTSETS[k % 4]
+        alts = [rng.randrange(0, 45000, 25) for _ in range(4)]
+        carriers = []
+        for v in alts:
+            carriers += [short(4, enc_alt13(v), a, rng.getrandbits(14)), long_(20, enc_alt13(v), bits_of(rng.getrandbits(56), 56), a),
+                         df17(5, a, me_airpos(11, 0, enc_alt12(v), 0, y0, x0)), df17(5, a, me_airpos(11, 0, enc_alt12(v), 1, y1, x1))]
+        seq = [carriers[2], carriers[3]] + returning(rng, carriers, 14)
+        g = [reset(opts), run1(df11(5, a))] + [run1(l) for l in seq]
+        groups.append(g)
+        groups.append(seg_group('C05', [df11(5, a)] + seq, opts))
     conform(rep, 'C05', groups)
     rep.rule = ('altitude codes (%s): AC13 in DF4 and DF20, AC12 in TC %s, each as update of an existing row and as first '
-                'frame, option sets {none,-U,-R}, other payload bits random. Non-trivial = applied frame carrying an '
+                'frame, option sets {none,-U,-R}, other payload bits random; rows with a freshly decoded position receiving altitudes from all '
+                'three carriers that return to earlier values (A B A C ...), per frame and as one line per run vs one run. Non-trivial = applied frame carrying an '
                 'altitude code with M=0 (decided by the spec); distinct = distinct (line, slot)'
                 % ('all 8192 / 4096' if tier == 'thorough' else 'stratified', tcs))
     vlib.nt_floor(rep, 1000)
@@ -566,6 +602,30 @@ def c04(tier):
             tag = {'pair': 'c04s'}
             groups.append([reset(opts, slot=0), reset(opts, slot=1),
                            runn([fr, F.flip(fr, p), g_other], slot=0, tag=tag), runn([fr, g_other], slot=1, tag=tag)])
+    # the record shape must not matter: corrupted squitters inside the usual receiver framings (time-tagged @...;  *...;  lower case,
+    # blanks, CR) are refused exactly like the bare digits
+    for fr in sq:
+        nb = len(fr) * 4
+        a = int(fr[2:8], 16)
+        shapes = [lambda x: '@%012X%s;' % (rng.getrandbits(48), x), lambda x: '*%s;' % x, lambda x: x.lower(), lambda x: '@%012x%s;\r' % (rng.getrandbits(48), x.lower()),
+                  lambda x: '  %s  ' % x, lambda x: '%012X%s' % (rng.getrandbits(48), x)]
+        pats = [[p] for p in range(6, nb + 1, 1 if tier == 'thorough' else 5)] + [sorted(rng.sample(range(6, nb + 1), rng.randrange(2, 5))) for _ in range(20)]
+        for ctx in (0, 1):
+            g = [reset([])]
+            if ctx:
+                g += [run1(fr), run1(short(5, enc_squawk(1, 2, 3, 4), a))]
+            for k, p in enumerate(pats):
+                g.append(run1(shapes[k % len(shapes)](F.flip(fr, p)), direct=True))
+                if not ctx:
+                    g.append(reset([]))
+            groups.append(g)
+    # corrupted squitters flowing while a row is overdue for the sweep: a refused frame must not move anything (not even the sweep)
+    for k, fr in enumerate(sq):
+        nb = len(fr) * 4
+        a_old = 0x3c7000 + k
+        for opts in ([], ['-U']):
+            bad = [F.flip(fr, sorted(rng.sample(range(6, nb + 1), rng.randrange(1, 3)))) for _ in range(14)]
+            groups.append([reset(['-d', '1'] + opts), run1(df11(5, a_old)), tick(2500), runn(bad), runn(bad[:3])])
     conform(rep, 'C04', groups, maxlen=2500)
     # all burst errors up to 12 (quick) / 24 (thorough) bits through the public get_message
     binary = vlib.build_harness('release')
@@ -583,7 +643,8 @@ def c04(tier):
     rep.rule = ('%d valid squitters (DF17 of several type codes, DF18, DF11 with II=0 and II!=0) x all 1-bit errors, %s 2-bit errors and '
                 'random heavier patterns confined to bits 6..end, on an empty table and on a table holding the aircraft, one event each '
                 '(table must stay untouched when the oracle says parity fails); all burst patterns up to %d bits (thorough: 22 for two squitters, 16 for the rest) via get_message in '
-                'reduced form. Non-trivial = corrupted frame whose syndrome the oracle finds non-zero (DF11: upper 17 bits)'
+                'reduced form; corrupted squitters inside receiver framings (@time-tag;  *;  lower case, blanks, CR); runs of corrupted squitters while '
+                'a row is overdue for the sweep (nothing may move). Non-trivial = corrupted frame whose syndrome the oracle finds non-zero (DF11: upper 17 bits)'
                 % (len(sq), 'all' if tier == 'thorough' else '700 sampled', maxlen))
     vlib.nt_floor(rep, 1000)
     return rep
@@ -1738,6 +1799,10 @@ def c14(tier):
             r = blank_row(0x600000 + k)
             r[fld] = full[fld]
             rows.append(r)
+        # the threat flag with and without a squawk next to it
+        r = blank_row(0x6000fd); r['thr'] = [0x2071]; rows.append(r)
+        r = blank_row(0x6000fc); r['thr'] = [0x2072]; r['sq'] = [7700]; rows.append(r)
+        r = blank_row(0x6000fb); r['sq'] = [1]; rows.append(r)
         r = blank_row(0x6000ff); r['lat'] = 52123450; r['lon'] = -8123450; rows.append(r)
         r = blank_row(0x6000fe); r['lat'] = 52123450; rows.append(r)            # latitude only: no position shown
         # values that do not fit their column (layout promise does not apply, cells unconstrained)
@@ -1745,6 +1810,9 @@ def c14(tier):
         cases.append({'id': len(cases), 'i': fs, 'o': rng.choice(['', 'sA', 'N', 'zz']), 'rows': rows})
     # quiet flag and unknown letters mixed in
     cases.append({'id': len(cases), 'i': 'xyzA', 'o': '', 'rows': [filled_row(0x200002, 'min', rng)]})
+    # a letter given more than once (several -i options are concatenated) still means its own group, no other
+    for fs in ['ee', 'aa', 'AA', 'ss', 'ww', 'aAae', 'wwaa', 'eeee', 'sss', 'aAewsaAews', 'AeA', 'waw', 'eaae']:
+        cases.append({'id': len(cases), 'i': fs, 'o': '', 'rows': [filled_row(0x200002, 'min', rng), filled_row(0xA00003, 'max', rng), blank_row(0x100001)]})
     events = run_print(binary, cases, 'c14')
     tr = os.path.join(vlib.workdir(), 'c14.trace.ndjson')
     vlib.write_ndjson(tr, events)
@@ -1758,9 +1826,9 @@ def c14(tier):
     rows_checked = sum(len(c['rows']) for c in cases)
     rep.extra['rows_rendered'] = rows_checked
     rep.rule = ('all 32 combinations of the -i groups x %d table rows each (all-blank, all-min, all-max with every source marker, negatives, one-field-only '
-                'rows for every optional column, position with one zero coordinate, %d random rows whose values all fit, and rows with values that do '
+                'rows for every optional column, the threat flag with and without a squawk, position with one zero coordinate, %d random rows whose values all fit, and rows with values that do '
                 'not fit), built through the public Plane fields and printed by the real LegendHeaders / Planes::print; TLC parses the columns from the '
-                'printed header + separator and checks every cell, the line width, and group presence <=> flag. Non-trivial = refresh with rows; '
+                'printed header + separator and checks every cell, the line width, and group presence <=> flag; also -i strings with repeated letters. Non-trivial = refresh with rows; '
                 'distinct by (flags, rows)' % (len(cases[0]['rows']), n_rand))
     rep.nontrivial = set('%s-%d' % (c['i'], c['id']) for c in cases)
     vlib.nt_floor(rep, 30)
